@@ -74,7 +74,7 @@ AddDeleteChildrenR(index, ch, order, upd, cfg) ==
              cv == ch[p]
          IN IF cv.d
             THEN LET kids == {k \in DOMAIN cfg : HasPrefix(k, p) /\ k # p}
-                     cfg2 == [k \in DOMAIN cfg |-> IF k \in kids THEN [cfg[k] EXCEPT !.d = TRUE, !.i = index] ELSE cfg[k]]
+                     cfg2 == [k \in DOMAIN cfg |-> IF k \in kids THEN [cfg[k] EXCEPT !.d = TRUE, !.i = index, !.v = ""] ELSE cfg[k]]
                      upd2 == [k \in (DOMAIN upd) \cup kids \cup {p} |->
                                 IF k = p THEN cv
                                 ELSE IF k \in kids THEN cfg2[k]
